@@ -6,6 +6,7 @@
 -/
 import SchedVerif.Props.C12
 import SchedVerif.Props.C06
+import SchedVerif.Lemmas.AsyncReg
 namespace SV
 
 /-- (1) a successful scheduling call adds at most its own fresh key, a rejected one nothing -/
@@ -178,5 +179,25 @@ example : (reach none 0 .linear
      .exec 200 true [0, 1, 2] [] [],
      .delTags [1] false,
      .del 1]).reg = [0] := by decide
+
+
+/-! ### the asyncio front end -/
+
+/-- **asyncio: the job set is exactly "scheduled − deleted − retired"** — after every history of the
+    asyncio scheduler (scheduling, deletions by reference / tags / from coroutines, scripted
+    coroutines, passage of virtual time) a job is registered iff its supervising task is alive: it
+    was created by a successful scheduling call, no `delete_job`/`delete_jobs` has cancelled it (not
+    even a cancellation still pending for the running task), and its supervisor has not left its loop
+    for lack of attempts -/
+theorem C11.aio_registry (tz : Option Int) (t0 : Int) (fuel : Nat) (ops : List AOp) (k : Nat) (t : ATask)
+    (ht : (arun fuel { tz := tz, now := t0 } ops).task? k = some t) :
+    k ∈ (arun fuel { tz := tz, now := t0 } ops).reg ↔ aliveT t = true :=
+  (RegInv.arun fuel ops _ (RegInv.init tz t0)).iff k t ht
+
+/-- asyncio: the registry never holds a job twice and only holds jobs that exist -/
+theorem C11.aio_registry_wellformed (tz : Option Int) (t0 : Int) (fuel : Nat) (ops : List AOp) :
+    (arun fuel { tz := tz, now := t0 } ops).reg.Nodup ∧
+    ∀ k ∈ (arun fuel { tz := tz, now := t0 } ops).reg, k < (arun fuel { tz := tz, now := t0 } ops).tasks.length :=
+  ⟨(RegInv.arun fuel ops _ (RegInv.init tz t0)).nodup, (RegInv.arun fuel ops _ (RegInv.init tz t0)).bound⟩
 
 end SV
